@@ -1714,6 +1714,89 @@ fn outage_update_run(rng: &mut Rng, out: &mut Out, rec: &Arc<Recorder>, dir: &st
     let _ = std::fs::remove_file(&path);
 }
 
+/// a write batch large enough for its journal intent to span more than one 512-byte sector (60+ records), after two
+/// earlier acknowledged transactions of the same session; the crash tears exactly that intent write (its first sector
+/// lands, the rest does not, and the other way round).  The slot fails its checksum, so recovery takes the *other*
+/// slot: that must be the record of the last completed transaction's end, not an older intent - every key that was
+/// acknowledged before must be there with its value.
+fn bigbatch_run(rng: &mut Rng, out: &mut Out, rec: &Arc<Recorder>, dir: &str, idx: u64) {
+    let blocks = 512u64;
+    let path = format!("{}/bigbatch{}.feox", dir, idx);
+    let _ = std::fs::remove_file(&path);
+    *rec.plan.lock().unwrap() = FaultPlan::default();
+    rec.log.lock().unwrap().clear();
+    rec.hold_sector.store(0, Ordering::SeqCst);
+    rec.hold_state.store(0, Ordering::SeqCst);
+    rec.fd.store(-2, Ordering::SeqCst);
+    rec.enabled.store(true, Ordering::SeqCst);
+    let finish = |rec: &Arc<Recorder>| { rec.enabled.store(false, Ordering::SeqCst); rec.fd.store(-1, Ordering::SeqCst); };
+    let Ok(store) = open_store(&path, blocks, false) else { finish(rec); return };
+    let mut acked: Vec<(Vec<u8>, Vec<u8>)> = vec![];
+    for t in 0..rng.range(2, 4) {
+        for i in 0..rng.range(2, 6) {
+            let k = format!("bb{}-t{}-{}", idx, t, i).into_bytes();
+            let vl = rng.range(20, 300) as usize;
+            let v = rng.bytes(vl);
+            let _ = store.insert(&k, &v);
+            acked.push((k, v));
+        }
+        if store.flush().is_err() { finish(rec); return; }
+    }
+    // in half of the cases the store is closed and opened again first: the big batch's intent is then the first
+    // journal record of a session (written next to the record the previous session ended with)
+    let store = if rng.chance(1, 2) {
+        drop(store);
+        match open_store(&path, blocks, false) { Ok(s) => { out.count("bigbatch after a reopen"); s } Err(_) => { finish(rec); return; } }
+    } else { store };
+    // the big batch: one shard would do, but the keys spread; enough of them for every shard's intent to be long
+    let nbig = rng.range(700, 1100);
+    for i in 0..nbig { let _ = store.insert(format!("bb{}-big-{:05}", idx, i).as_bytes(), &rng.bytes(30)); }
+    let before = rec.log.lock().unwrap().len();
+    let _ = store.flush();
+    let trace: Vec<Ev> = rec.log.lock().unwrap().clone();
+    drop(store);
+    finish(rec);
+    out.count("bigbatch case");
+    // journal writes of the big flush whose image is longer than one sector
+    let targets: Vec<usize> = trace.iter().enumerate().skip(before).filter(|(_, e)| matches!(e, Ev::Write { sector, data, .. } if (1..7).contains(sector) && {
+        let mut area = vec![0u8; 6 * BS];
+        let off = (*sector as usize - 1) * BS;
+        let l = data.len().min(area.len() - off);
+        area[off..off + l].copy_from_slice(&data[..l]);
+        matches!(feoxdb::verif::pure::journal_decode(&area, blocks), Ok((_, _, ex)) if ex.len() >= 60)
+    })).map(|(i, _)| i + 1).collect();
+    if targets.is_empty() { out.count("bigbatch skipped (no journal intent with 60+ extents)"); let _ = std::fs::remove_file(&path); return; }
+    let mut reported = false;
+    for &upto in targets.iter().take(4) {
+        for style in 0..2 {
+            let (img, _) = build_image(&trace, upto, blocks, &|i, n| if i + 1 == n { Fate::Torn((0..4096).map(|j| if style == 0 { j < 1 } else { j >= 1 }).collect()) } else { Fate::Applied });
+            out.images += 1;
+            out.count("image-torn-long-intent");
+            let p = write_image(dir, &format!("bigbatch{}_c{}_{}.feox", idx, upto, style), &img);
+            let keep = format!("{}.orig", p);
+            std::fs::write(&keep, &img).unwrap();
+            let verdict = match recover(&p, blocks) {
+                Err(e) => Some(format!("the crash image does not reopen ({})", e)),
+                Ok(rv) => {
+                    let lost: Vec<String> = acked.iter().filter(|(k, v)| !matches!(rv.contents.get(k), Some((d, l, _)) if *d == fnv(v) && *l == v.len())).map(|(k, _)| String::from_utf8_lossy(k).to_string()).collect();
+                    if lost.is_empty() { None } else { Some(format!("{} of the {} keys acknowledged by earlier flushes of the session are gone or changed after recovery (first {})", lost.len(), acked.len(), lost[0])) }
+                }
+            };
+            let _ = std::fs::remove_file(&p);
+            match verdict {
+                Some(why) if !reported => {
+                    reported = true;
+                    let what = format!("crash that tears the journal intent of a {}-record batch (first sector {}): {}", nbig, if style == 0 { "landed, the rest lost" } else { "lost, the rest landed" }, why);
+                    out.fail("C03", what.clone(), &keep);
+                    out.fail("C02", what, &keep);
+                }
+                _ => { let _ = std::fs::remove_file(&keep); }
+            }
+        }
+    }
+    let _ = std::fs::remove_file(&path);
+}
+
 /// a long write-behind queue meets a failing journal write: the first record writes are slow, so
 /// thousands of accepted writes pile up behind the worker and the next pass has several
 /// 1024-entry transactions per shard; a few journal intent writes then fail.  Once the device
@@ -2117,6 +2200,9 @@ fn main() {
     if has("hazard") {
         for i in 0..get("hazards", 4) {
             hazard_run(&mut rng, &mut out, &rec, &args.out.clone(), i);
+        }
+        for i in 0..get("bigbatch", 1) {
+            bigbatch_run(&mut rng, &mut out, &rec, &args.out.clone(), i);
         }
         for i in 0..get("cflush", 2) {
             concurrent_flush_run(&mut rng, &mut out, &rec, &args.out.clone(), i);
